@@ -94,6 +94,9 @@ Inductive hstep :=
 | HSetBytes (k : bytes) (b : bytes)
 | HSetCounter (k : bytes) (n : Z)
 | HRender (t : tree) (out : bytes) (e : N) (events : list event)   (* with what the real engine showed *)
+| HRenderF (t : tree) (fail short : nat) (out : bytes) (e : N) (events : list event)
+    (* the same through a writer that refuses its fail-th write after taking [short] bytes of it;
+       the context is used further afterwards *)
 | HReset (events : list event).                                     (* Reset / Release+Acquire: pooled objects go back *)
 
 Record hcase := mkHCase {
@@ -138,6 +141,13 @@ Fixpoint check_history (hc : hcase) (steps : list hstep) (c : ctx) : list hverdi
       (if bytes_eqb (wr_bytes w1) out && N.eqb (err_code e1) e && events_eqb (rev (elog c1)) evs then HOk
        else HBad (hex_string (wr_bytes w1)) (err_code e1) (length (elog c1))) :: check_history hc r c1
     | _ => [HSkip]     (* outside the model: the rest of the history is not judged *)
+    end
+  | HRenderF t fail short out e evs :: r =>
+    match render (hc_flits hc) (reg_lookup (hc_reg hc)) (hc_budget hc) 8 t (clear_log c) (wr_new (Some fail) short) with
+    | Out c1 w1 e1 =>
+      (if bytes_eqb (wr_bytes w1) out && N.eqb (err_code e1) e && events_eqb (rev (elog c1)) evs then HOk
+       else HBad (hex_string (wr_bytes w1)) (err_code e1) (length (elog c1))) :: check_history hc r c1
+    | _ => [HSkip]
     end
   end.
 
